@@ -75,7 +75,25 @@ def _install(it):
             raise PyRaise("TypeError", ("unhashable type",))
         if isinstance(x, NDArr):
             raise PyRaise("TypeError", ("unhashable type: ndarray",))
+        from fractions import Fraction
+        if isinstance(x, (int, Fraction)) and not isinstance(x, bool) and x == -1:
+            # CPython reserves the hash value -1 (error code of the C API): hash(-1) == hash(-2) for ints and floats
+            return H(-2)
         return H(x)
+
+    def repr_(x):
+        from fractions import Fraction
+        if isinstance(x, bool) or isinstance(x, int):
+            return str(x)
+        if isinstance(x, Fraction):
+            return f"float:{x}"
+        if isinstance(x, str):
+            return "'" + x + "'"
+        if is_sym(x):
+            return ("repr-of-number", x)  # an injective rendering of the (symbolic) value
+        return Opaque("repr")
+
+    it.builtins["repr"] = repr_
 
     def sha1(x, **kw):
         raise PyRaise("TypeError", ("object supporting the buffer API required",))
@@ -143,6 +161,104 @@ def key_unit(a, b, wrap):
         U.assume_note("hash() is collision free on the values that reach cache keys (injective constructor)")
 
     return unit
+
+
+NUMBER_PAIRS = [(-1, -2), (0, -1), (1, 2), (-1, 1), (-2, 2)]
+
+
+def numeric_key_unit(where):
+    """requests that differ in one numeric argument (e.g. interpolate(.., fill=-1) / fill=-2) get different keys;
+    CPython's hash(-1) == hash(-2) is part of the model of `hash`"""
+    def unit(U):
+        def body(it):
+            _install(it)
+            hm = it.get_function(CACHE, "hash_mutable")
+            from fractions import Fraction
+            out = []
+            for a, b in NUMBER_PAIRS:
+                for conv in (int, Fraction):
+                    ks = []
+                    for v in (conv(a), conv(b)):
+                        if where == "keyword":
+                            key = ((), {"fill": v, "with_ghost_cells": False})
+                        elif where == "positional":
+                            key = (("laplace", v), {})
+                        else:
+                            key = (((0, v), [v, 2]), {"value": {"x": v}})
+                        ks.append(it.call(hm, [key], {}))
+                    out.append(((a, b, conv.__name__), ks))
+            return out
+
+        for p, res in enumerate(explore_paths(U, body)):
+            P = prem_of(res.ctx)
+            if res.outcome != "return":
+                U.prove(f"path{p}.hash_mutable_returns_normally", P, z3.BoolVal(False), info={"exc": str(res.exc)})
+                continue
+            for (a, b, tn), (k1, k2) in res.value:
+                U.prove(f"path{p}.keys_differ[{tn} {a} vs {b}]", P, z3.BoolVal(not (k1 == k2)), info={"replay_payload": {"numeric_keys": [a, b]}})
+        U.assume_note("hash() of CPython: injective on the values that reach cache keys except hash(-1) == hash(-2) (modelled)")
+
+    return unit
+
+
+def grid_hash_unit(kind):
+    """GridBase._cache_hash keys the backend-level operator cache (through the grid argument and the grid of every
+    boundary condition): two grids of one class whose keys are equal must be equal grids, i.e. agree in shape,
+    bounds and periodicity -- everything an operator implementation may depend on"""
+    num_axes = {"CartesianGrid": 2, "PolarSymGrid": 1, "SphericalSymGrid": 1, "CylindricalSymGrid": 2}[kind]
+
+    def unit(U):
+        def body(it):
+            _install(it)
+            mod = {"CartesianGrid": "pde.grids.cartesian", "CylindricalSymGrid": "pde.grids.cylindrical"}.get(kind, "pde.grids.spherical")
+            cls = it.module_attr(it.load_module(mod), kind)
+            grids, states = [], []
+            for tag in ("a", "b"):
+                N = [z3.Int(f"N{a}_{tag}") for a in range(num_axes)]
+                lo = [z3.Real(f"lo{a}_{tag}") for a in range(num_axes)]
+                hi = [z3.Real(f"hi{a}_{tag}") for a in range(num_axes)]
+                per = [z3.Bool(f"periodic{a}_{tag}") for a in range(num_axes)]
+                for a in range(num_axes):
+                    it.ctx.assume(z3.And(N[a] >= 1, hi[a] > lo[a]))
+                from ..arrays import fresh_array
+                dx = [(hi[a] - lo[a]) / z3.ToReal(N[a]) for a in range(num_axes)]
+                disc = fresh_array(f"discretization_{tag}", (num_axes,), lambda idx, dx=dx: dx[idx[0]] if isinstance(idx[0], int) else (dx[0] if num_axes == 1 else z3.If(to_z3(idx[0]) == 0, dx[0], dx[1])))
+                g = Instance(cls, {"_shape": tuple(N), "shape": tuple(N), "_axes_bounds": tuple((lo[a], hi[a]) for a in range(num_axes)),
+                                   "axes_bounds": tuple((lo[a], hi[a]) for a in range(num_axes)), "_periodic": list(per), "periodic": list(per),
+                                   "_discretization": disc, "discretization": disc, "num_axes": num_axes})
+                grids.append(g)
+                states.append((N, lo, hi, per))
+            keys = [it.call(it.getattr(g, "_cache_hash"), [], {}) for g in grids]
+            return keys, states
+
+        for p, res in enumerate(explore_paths(U, body)):
+            P = prem_of(res.ctx)
+            if res.outcome != "return":
+                U.prove(f"path{p}.returns_normally", P, z3.BoolVal(False), info={"exc": str(res.exc)})
+                continue
+            (k1, k2), ((N1, lo1, hi1, per1), (N2, lo2, hi2, per2)) = res.value
+            same_key = _payload_eq(k1, k2)
+            same_grid = z3.And(*[z3.And(N1[a] == N2[a], lo1[a] == lo2[a], hi1[a] == hi2[a], per1[a] == per2[a]) for a in range(num_axes)])
+            U.prove(f"path{p}.equal_keys=>same_shape_bounds_and_periodicity", P + [same_key], same_grid,
+                    info={"witness": "two grids of one class that differ e.g. only by a shift of their bounds", "replay_payload": {"grid_hash": kind}})
+            U.prove(f"path{p}.equal_grids=>equal_keys", P + [same_grid], same_key)
+
+    return unit
+
+
+def _payload_eq(a, b):
+    """equality of two hash terms of the injective model as a formula over their symbolic leaves"""
+    if isinstance(a, H) and isinstance(b, H):
+        return _payload_eq(a.payload, b.payload)
+    if isinstance(a, (tuple, list)) and isinstance(b, (tuple, list)):
+        if len(a) != len(b):
+            return z3.BoolVal(False)
+        return z3.And(*[_payload_eq(x, y) for x, y in zip(a, b)]) if a else z3.BoolVal(True)
+    if is_sym(a) or is_sym(b):
+        return to_z3(a) == to_z3(b)
+    if isinstance(a, H) or isinstance(b, H):
+        return z3.BoolVal(False)
+    return z3.BoolVal(a == b)
 
 
 def same_object_same_key(U):
@@ -224,6 +340,8 @@ def wrapper_unit(U):
 
 
 UNITS = [(f"key_injectivity[{a}|{b},{w}]", key_unit(a, b, w)) for a, b in PAIRS for w in ("bare", "pair", "list")] + [
+    *[(f"numeric_arguments_get_distinct_keys[{w}]", numeric_key_unit(w)) for w in ("keyword", "positional", "nested")],
+    *[(f"grid_cache_hash[{k}]", grid_hash_unit(k)) for k in ("CartesianGrid", "PolarSymGrid", "SphericalSymGrid", "CylindricalSymGrid")],
     ("key_determinism", same_object_same_key), ("rebinding_data_invalidates_cached_helpers", rebinding_unit), ("cache_wrapper", wrapper_unit)]
 
 
@@ -237,6 +355,6 @@ def bounded(tier, seed):
              "cases": res["cases"], "failures": res["failures"]}]
 
 
-TRUSTED = ["hash() collision free (injective constructor)", "class table (which classes define __eq__ / __hash__) read from the source"]
+TRUSTED = ["hash() collision free (injective constructor) except CPython's hash(-1) == hash(-2), which is modelled", "class table (which classes define __eq__ / __hash__) read from the source"]
 ASSUMPTIONS = ["global configuration fixed within a history", "numba's own dispatch caches and functools caches of dependencies are not covered"]
 NOT_COVERED = ["static reads-frame analysis of all 20 cache sites (only the interpolator / re-binding site is under contract)", "PDE._prepare_cache key (state.attributes): bounded native check only"]
